@@ -279,7 +279,9 @@ def handlePiece (st : State) (args : List String) (impl : List String) : String 
             (match c.fallback.head?, c.unknown with
               | some .skip, _ => "FAILS error-despite-skip-fallback"
               | some .unknown, some _ => "FAILS error-despite-unknown-fallback"
-              | _, _ => "HOLDS-NA")
+              | _, _ =>
+                -- down the list (`Bytes` continuing with its tail): an error needs a unit on which no entry applies
+                if Spec.errPossiblePiece c t then "HOLDS-NA" else "FAILS error-despite-applicable-fallback")
           | _ => "FAILS panic"
       s!"{model} || {verdict}"
     | _, _, _ => "BAD-OP"
